@@ -233,5 +233,9 @@ pub fn free(seed: u64, runs: usize, dir: &str, maxlen: usize) {
         let p = format!("x.{}", ext);
         println!("{}", json!({"ev":"rfmt","ext":ext,"gz":false,"got":fmt_name(SeqFormat::get(&p))}));
     }
+    // names that consist of the suffix alone (a hidden file ".fa" in some directory), and suffixes after a directory with dots
+    for (name, ext) in [("dir/.fa", "fa"), ("dir/.fastq.gz", "fastq"), (".fq", "fq"), ("a.b/c.d/.fna", "fna"), ("v1.2/x.fasta", "fasta"), ("x.fa/y.fq", "fq")] {
+        println!("{}", json!({"ev":"rfmt","ext":ext,"gz":name.ends_with(".gz"),"got":fmt_name(SeqFormat::get(name))}));
+    }
     println!("{}", json!({"ev":"eof"}));
 }
